@@ -22,11 +22,24 @@ Observed(e) ==
     [] e.kind = "c14" -> [err |-> e.out.err, servers |-> e.out.servers]
     [] e.kind = "c16" -> [lifetimes |-> e.out.lifetimes]
 
+\* C16 with a clock that moves between readings: the prefix's two lifetimes must come from ONE of the readings the
+\* code made while building that option (so preferred can never exceed valid), the route's from one of its own.
+C16OK(e) ==
+  LET v == e.in
+      tick == IF "tick" \in DOMAIN v THEN v.tick ELSE 0
+      At(i, k) == AdvAt(v.epoch, v.valid, v.pref, v.rl, v.deprecated, v.reads[i] + k * tick)
+      N(x) == IF tick = 0 \/ x < 1 THEN 1 ELSE x IN
+  /\ Len(e.out.lifetimes) = Len(v.reads)
+  /\ \A i \in 1..Len(v.reads) :
+       LET row == e.out.lifetimes[i] IN
+       /\ \E k \in 0..(N(e.out.calls[i][1]) - 1) : row[1] = At(i, k)[1] /\ row[2] = At(i, k)[2]
+       /\ \E k \in 0..(N(e.out.calls[i][2]) - 1) : row[3] = At(i, k)[3]
+
 VARIABLES l
 TInit == l = 1
 TNext == /\ l <= Len(Trace)
          /\ LET e == Trace[l] IN
-            IF Observed(e) = Expected(e) THEN TRUE
+            IF (IF e.kind = "c16" THEN C16OK(e) ELSE Observed(e) = Expected(e)) THEN TRUE
             ELSE PrintT(ToJson([viol |-> e.kind, id |-> e.id, line |-> l]))
          /\ l' = l + 1
 TSpec == TInit /\ [][TNext]_l
